@@ -207,7 +207,7 @@ def run(ctx):
     tally_from(T, "tls_validate.py", [], "model-vs-impl(tls option space)", "_ssl_socket/_wrap_sni_socket", "C11_only_documented, C11_sweep")
     return T.result(
         "default plan and each documented option alone against the property text with real ssl.SSLContext attribute semantics; "
-        "ws/wss wrap ordering through connect(); the verified decision model against the real _ssl_socket on the whole option space "
+        "ws/wss wrap ordering through connect(), also along redirect chains (absolute and relative Location); the verified decision model against the real _ssl_socket on the whole option space "
         "(8700 option sets x environment bundle states, self-tested fake SSLContext, 6 connect orders; coqc vm_compute)",
         exhaustive=True, what_is_proved="see Properties/C11.v",
         trusted_extra=["that an ssl.SSLContext with verify_mode=CERT_REQUIRED and check_hostname=True authenticates the peer is OpenSSL/CPython behaviour (not proved)"])
